@@ -229,3 +229,20 @@ M('C01', 'at_fraction3-no-scale', C3F, "        self.at_length(fraction * self.l
 M('C01', 'dir_of_vertex-seam-wrong-edge', C2F, "            let d1 = self.dir_of_edge(v.len() - 2).into_inner();\n            // TODO: this will fail on a curve that doubles back, use angles?\n            Unit::new_normalize(d0 + d1)\n        } else if is_first {", "            let d1 = self.dir_of_edge(1).into_inner();\n            // TODO: this will fail on a curve that doubles back, use angles?\n            Unit::new_normalize(d0 + d1)\n        } else if is_first {", 'Curve2::dir_of_vertex')
 M('C01', 'search-comparator-reversed', C2F, "                .binary_search_by(|a| a.partial_cmp(&length).unwrap());\n            match search {\n                Ok(index) => Some(self.at_vertex(index)),", "                .binary_search_by(|a| length.partial_cmp(a).unwrap());\n            match search {\n                Ok(index) => Some(self.at_vertex(index)),", 'Curve2::at_length:comparator')
 M('C01', 'neutral-at_length-temps', C3F, "                    let index = next_index - 1;\n                    let dir = self.dir_of_edge(index);\n                    let remaining = length - self.lengths[index];\n                    let f = remaining / (self.lengths[index + 1] - self.lengths[index]);", "                    let index = next_index - 1;\n                    let l0 = self.lengths[index];\n                    let l1 = self.lengths[index + 1];\n                    let dir = self.dir_of_edge(index);\n                    let remaining = length - l0;\n                    let f = remaining / (l1 - l0);", kind='neutral')
+
+# ---------------------------------------------------------------- C05
+PTF = 'src/common/points.rs'
+M('C05', 'by-count-3d-fraction-only', C3F, "        positions.push(f * curve.length());", "        positions.push(f);", 'Curve3::resample_by_count')
+M('C05', 'by-count-2d-n-denominator', C2F, "        let f = i as f64 / (count - 1) as f64;\n        positions.push(f * curve.length());", "        let f = i as f64 / count as f64;\n        positions.push(f * curve.length());", 'Curve2::resample_by_count')
+M('C05', 'max-spacing-3d-off-by-one', C3F, "    let n = (curve.length() / max_spacing).ceil() as usize + 1;", "    let n = (curve.length() / max_spacing).ceil() as usize;", 'Curve3::resample_by_max_spacing')
+M('C05', 'max-spacing-2d-floor', C2F, "    let n = (curve.length() / max_spacing).ceil() as usize + 1;", "    let n = (curve.length() / max_spacing).floor() as usize + 1;", 'Curve2::resample_by_max_spacing')
+M('C05', 'by-spacing-start-offset', C2F, "    let mut positions = Vec::new();\n    let mut length = 0.0;\n    while length < curve.length() {\n        positions.push(length);\n        length += spacing;\n    }\n\n    let padding", "    let mut positions = Vec::new();\n    let mut length = spacing;\n    while length < curve.length() {\n        positions.push(length);\n        length += spacing;\n    }\n\n    let padding", 'Curve2::resample_by_spacing')
+M('C05', 'by-spacing-no-centre-3d', C3F, "    let padding = (curve.length() - positions.last().unwrap()) / 2.0;", "    let padding = (curve.length() - positions.last().unwrap()) / 4.0;", 'Curve3::resample_by_spacing:centred')
+M('C05', 'positions-lose-closedness', C2F, "    Curve2::from_points(&points, curve.tol, curve.is_closed)\n}", "    Curve2::from_points(&points, curve.tol, false)\n}", 'Curve2::resample_at_positions:rebuild')
+M('C05', 'simplify2-loses-closedness', C2F, "        Curve2::from_points(&new_points, self.tol, self.is_closed).unwrap()\n    }\n\n    pub fn resample", "        Curve2::from_points(&new_points, self.tol, false).unwrap()\n    }\n\n    pub fn resample", 'Curve2::simplify')
+M('C05', 'rdp-endpoint-after-return', PTF, "        self.keep[i0] = true;\n        self.keep[i1] = true;\n        if i1 - i0 < 2 {\n            return;\n        }\n", "        self.keep[i0] = true;\n        if i1 - i0 < 2 {\n            return;\n        }\n        self.keep[i1] = true;\n", 'Rdp::simplify:endpoints-kept')
+M('C05', 'rdp-recursion-unconditional', PTF, "        if max_dist > self.tol {\n            self.simplify(i0, max_i);", "        if max_dist > 0.0 {\n            self.simplify(i0, max_i);", 'Rdp::simplify:recursion')
+M('C05', 'fill-gaps-skip-original', PTF, "            for x in evenly_spaced_points_between(result.last().unwrap(), p, n) {\n                result.push(x);\n            }\n        }\n        result.push(*p);", "            for x in evenly_spaced_points_between(result.last().unwrap(), p, n) {\n                result.push(x);\n            }\n        } else {\n            result.push(*p);\n        }", 'fill_gaps:originals-kept')
+M('C05', 'fill-gaps-fixed-n', PTF, "            for x in evenly_spaced_points_between(result.last().unwrap(), p, n) {", "            for x in evenly_spaced_points_between(result.last().unwrap(), p, 1) {", 'fill_gaps:insertion')
+M('C05', 'evenly-between-includes-end', PTF, "    let step = (end - start) / (num_points + 1) as f64;\n    for i in 1..num_points + 1 {", "    let step = (end - start) / (num_points + 1) as f64;\n    for i in 1..num_points + 2 {", 'evenly_spaced_points_between')
+M('C05', 'resampled_x-off-by-one', S1F, "        let n = 1.0 + (self.x_max() - self.x_min()) / x_spacing;", "        let n = (self.x_max() - self.x_min()) / x_spacing;", 'Series1::resampled_x')
